@@ -284,36 +284,40 @@ void operator&=(std::vector<T>& v1, const C& c)
 template<class T, class C>
 void operator+=(std::vector<T>& v1, const C& c)
 {
+  const C value(c); // c may be an element of v1
   for (auto& x : v1)
   {
-    x += c;
+    x += value;
   }
 }
 
 template<class T, class C>
 void operator-=(std::vector<T>& v1, const C& c)
 {
+  const C value(c); // c may be an element of v1
   for (auto& x : v1)
   {
-    x -= c;
+    x -= value;
   }
 }
 
 template<class T, class C>
 void operator*=(std::vector<T>& v1, const C& c)
 {
+  const C value(c); // c may be an element of v1
   for (auto& x :v1)
   {
-    x *= c;
+    x *= value;
   }
 }
 
 template<class T, class C>
 void operator/=(std::vector<T>& v1, const C& c)
 {
+  const C value(c); // c may be an element of v1
   for (auto& x : v1)
   {
-    x /= c;
+    x /= value;
   }
 }
 
